@@ -400,3 +400,444 @@ Example C12_finding_placeholder_in_comment :
 // two
 ".
 Proof. vm_compute. split; reflexivity. Qed.
+
+(* ================================================================================================== *)
+(* added from Properties/C12_add.v (2026-10-01)                                              *)
+(* ================================================================================================== *)
+(* C12 (addition)  Include directives survive read -> write -> read: every #include directive is written again and names
+   the same file. *)
+From Coq Require Import String.   (* string literals of the examples; imported first so the list names win *)
+From Coq Require Import NArith ZArith List Bool Lia.
+From DictIO Require Import Chars Str Value Scalar KeyPath SDict Layout Lexer TokParser TreeSpec NativeSpec LayoutSpec E2ESpec.
+From DictIO Require Import E2EProofs E2EHoles E2EKeyTok E2EFullProofs LayoutProofs.
+From DictIO Require Import RereadPlain RereadStr RereadTree RereadWrite RereadLex RereadNum RereadProofs RereadFix RereadOff.
+From DictIO Require Import RereadIncStage RereadIncLex RereadIncParse RereadIncRead RereadIncWrite RereadIncProofs.
+Import ListNotations.
+Open Scope N_scope.
+
+(* The vocabulary (RereadIncStage, RereadIncLex, RereadIncRead, RereadIncWrite):
+     iph i               the include placeholder INCLUDE + six digits;
+     inc_directive name  the directive the formatter writes:  #include  + blank + format_string name  (the name bare, or in
+                         single / double quotes, as the formatter's string quoting decides);
+     name_ok name        no line break of any kind (LF CR VT FF FS GS RS NEL LS PS): the class of the stage theorems;
+     inc_name_ok name    name_ok, and the line comment pass finds nothing in the directive (no double slash, unless a colon
+                         stands in front of it): the class of the lexer on whole texts;
+     name_cond name      inc_name_ok, and no comment placeholder and no include placeholder inside the name (the insertion
+                         passes of the WRITER would replace it): the class of the whole cycle;
+     strip_inc s         the SDict without its include entries;   inc_names s  the file names of its include entries in
+                         data order;   rereadable_inc s  the class of the document theorems (below). *)
+
+(* ================================================================================================ *)
+(* Stage 1: one directive                                                                            *)
+(* ================================================================================================ *)
+
+(* _extract_includes on a line that carries the directive as the formatter spells it (indented or not, any white space
+   around keyword and name): the line is replaced by ONE placeholder of the next counter value, and the include table gets
+   (the line without its line feed, the name, the path of the name relative to the folder dir of the file) *)
+Theorem C12_extract_include : forall dir count (ind sp1 sp2 name nl : str) ls, name_ok name = true ->
+  (forall c, In c ind -> is_space c = true) -> (forall c, In c sp1 -> is_space c = true) ->
+  (forall c, In c sp2 -> is_space c = true) -> has_char c_lf (ind ++ sp1 ++ sp2) = false -> line_end nl ->
+  let l := ind ++ c_hash :: sp1 ++ w_include ++ sp2 ++ format_string name in
+  let k := counter_next count in
+  extract_includes dir count ((l ++ nl) :: ls) =
+  let '(r, c2, tab) := extract_includes dir k ls in
+  ((iph (Z.to_N k) ++ [c_lf]) :: r, c2, tupdate [(Z.to_N k, (l, name, path_join dir name))] tab).
+Proof. exact extract_include_written. Qed.
+Print Assumptions C12_extract_include.
+
+(* non-vacuity: an indented directive with a tab after the hash sign, a name in a sub-directory with a blank and an
+   apostrophe (so the formatter wraps it in double quotes), counter just before the wrap-around *)
+Example C12_extract_include_nonvacuous :
+  let dir := of_string "/proj/case" in let name := of_string "sub dir/it's.dict" in
+  let ind := of_string "    " in let sp1 := [c_tab] in let sp2 := of_string "  " in let nl := [c_lf] in
+  let l := ind ++ c_hash :: sp1 ++ w_include ++ sp2 ++ format_string name in
+  name_ok name = true /\ format_string name = of_string """sub dir/it's.dict""" /\
+  extract_includes dir 999999 ((l ++ nl) :: [of_string "a 1;"]) =
+    ([of_string "INCLUDE000000" ++ [c_lf]; of_string "a 1;"], 0%Z, [(0, (l, name, of_string "/proj/case/sub dir/it's.dict"))]).
+Proof.
+  intros dir name ind sp1 sp2 nl l.
+  assert (H0 : name_ok name = true) by (vm_compute; reflexivity).
+  split; [exact H0|]. split; [vm_compute; reflexivity|].
+  pose proof (C12_extract_include dir 999999%Z ind sp1 sp2 name nl [of_string "a 1;"] H0) as H. cbv zeta in H. fold l in H.
+  rewrite H; [vm_compute; reflexivity| | | | |].
+  - intros c Hc. apply (proj1 (forallb_forall is_space ind)); [vm_compute; reflexivity|exact Hc].
+  - intros c [<-|[]]. reflexivity.
+  - intros c Hc. apply (proj1 (forallb_forall is_space sp2)); [vm_compute; reflexivity|exact Hc].
+  - vm_compute. reflexivity.
+  - right. reflexivity.
+Qed.
+
+(* insert_includes on the placeholder pair of an entry, as the formatter lays it out (at any indentation), between texts in
+   which that placeholder does not begin anywhere (Gc of RereadStr): the pair is replaced by the directive and NOTHING ELSE
+   changes.  The name is written with the formatter's string quoting; a backslash in it comes out as it is. *)
+Theorem C12_insert_include : forall lvl i (d name p : str) (X Z : str), Gc (iph i) X -> Gc (iph i) Z ->
+  insert_includes format_string [(i, (d, name, p))] (X ++ inc_pair lvl i ++ Z) = X ++ line lvl (inc_directive name) true ++ Z.
+Proof. exact insert_include_one. Qed.
+Print Assumptions C12_insert_include.
+
+Example C12_insert_include_nonvacuous :
+  let X := of_string "a                             1;
+" in let Z := of_string "b                             2;
+" in
+  Gc (iph 3) X /\ Gc (iph 3) Z /\
+  inc_pair 0 3 = of_string "INCLUDE000003                 INCLUDE000003;
+" /\
+  insert_includes format_string [(3, ([], of_string "sub\inc file.dict", []))] (X ++ inc_pair 0 3 ++ Z) =
+  of_string "a                             1;
+#include 'sub\inc file.dict'
+b                             2;
+".
+Proof.
+  intros X Z.
+  assert (G : forall Y : str, contains (iph 3) Y = false -> Gc (iph 3) (Y ++ [c_lf])).
+  { intros Y HY. apply (Gc_term (iph 3) Y c_lf (iph_chars 3) (iph_ne 3) HY). reflexivity. }
+  assert (H1 : Gc (iph 3) X) by (apply (G (of_string "a                             1;")); vm_compute; reflexivity).
+  assert (H2 : Gc (iph 3) Z) by (apply (G (of_string "b                             2;")); vm_compute; reflexivity).
+  split; [exact H1|]. split; [exact H2|]. split; [vm_compute; reflexivity|].
+  etransitivity; [exact (C12_insert_include 0 3 [] (of_string "sub\inc file.dict") [] X Z H1 H2)|vm_compute; reflexivity].
+Qed.
+
+(* "names the same file": the line insert_includes writes for an entry with file name `name`, read again from a file in
+   folder dir', puts the SAME NAME into the include table, with the path of that name relative to dir' -- the same file
+   when the text is read from the folder the entry came from.  For every name without a line break. *)
+Theorem C12_include_roundtrip : forall dir' count lvl (name : str) ls, name_ok name = true ->
+  let k := counter_next count in
+  extract_includes dir' count (line lvl (inc_directive name) true :: ls) =
+  let '(r, c2, tab) := extract_includes dir' k ls in
+  ((iph (Z.to_N k) ++ [c_lf]) :: r, c2,
+   tupdate [(Z.to_N k, (indent_of lvl ++ inc_directive name, name, path_join dir' name))] tab).
+Proof. exact include_roundtrip. Qed.
+Print Assumptions C12_include_roundtrip.
+
+(* non-vacuity: names with a blank, both kinds of quote characters, a backslash, a dollar, sub-directories, dot-dot, an
+   absolute path, and the empty name; each is read back as it was, with the path re-anchored (absolute names stay) *)
+Example C12_include_roundtrip_nonvacuous :
+  let names := [of_string "top.dict"; of_string "sub/inc.dict"; of_string "../up/my file.dict"; of_string "a'b""c"; of_string "win\dir\f.dict";
+                of_string "$ref"; of_string "/abs/inc.dict"; []] in
+  forallb name_ok names = true /\
+  map (fun nm => extract_includes (of_string "/e") 41 [line 1 (inc_directive nm) true]) names =
+  map (fun nm => ([of_string "INCLUDE000042" ++ [c_lf]], 42%Z, [(42, (indent_of 1 ++ inc_directive nm, nm, path_join (of_string "/e") nm))])) names /\
+  map inc_directive names =
+    [of_string "#include top.dict"; of_string "#include 'sub/inc.dict'"; of_string "#include '../up/my file.dict'"; of_string "#include 'a'b""c'";
+     of_string "#include 'win\dir\f.dict'"; of_string "#include $ref"; of_string "#include '/abs/inc.dict'"; of_string "#include ''"] /\
+  map (path_join (of_string "/e")) names =
+    [of_string "/e/top.dict"; of_string "/e/sub/inc.dict"; of_string "/e/../up/my file.dict"; of_string "/e/a'b""c"; of_string "/e/win\dir\f.dict";
+     of_string "/e/$ref"; of_string "/abs/inc.dict"; of_string "/e"].
+Proof.
+  intros names. assert (H0 : forallb name_ok names = true) by (vm_compute; reflexivity). split; [exact H0|]. split; [|vm_compute; split; reflexivity].
+  apply map_ext_in. intros nm Hin. rewrite (C12_include_roundtrip (of_string "/e") 41%Z 1 nm [] (proj1 (forallb_forall _ _) H0 nm Hin)). reflexivity.
+Qed.
+
+(* ---- findings: names outside the classes (each evaluated on the model; 1-4 and 6 checked against the library) -------- *)
+Definition ex12i_ph (w : str) (i : N) : key * tree := (KS (placeholder w i), Leaf (SStr (placeholder w i))).
+Definition ex12i_inc (name : str) : include_entry := ([], name, []).
+Definition ex12i_names (r : res parsed) : list str := match r with Ok p => map (fun e => snd (fst (snd e))) (sd_inc (pr_sd p)) | Raise _ => [] end.
+Definition ex12i_keys (r : res parsed) : list str :=
+  match r with Ok p => map (fun kv => match fst kv with KS s => s | KI _ => [] end) (sd_data (pr_sd p)) | Raise _ => [] end.
+
+(* 1. name_ok: a line break of another kind than LF inside the name (here VT) tears the directive line apart; the name comes
+      back cut, and the entry behind the directive is lost *)
+Example C12_finding_include_linebreak :
+  let s := mkSD [ex12i_ph w_INCLUDE 3; (KS (of_string "a"), Leaf (SInt 1))] [] [] [(3, ex12i_inc (of_string "a" ++ [c_vt] ++ of_string "b"))] [] in
+  name_ok (of_string "a" ++ [c_vt] ++ of_string "b") = false /\
+  ex12i_names (parse_string true [] 41 (to_string_sd s)) = [of_string "a"] /\
+  ex12i_keys (parse_string true [] 41 (to_string_sd s)) = [of_string "BLOCKCOMMENT000000"; of_string "INCLUDE000042"].
+Proof. vm_compute. repeat split; reflexivity. Qed.
+
+(* 2. inc_name_ok: line comments are lifted out BEFORE the include directives, so a double slash in the name (not behind a
+      colon) is taken for a comment and the name is garbled; a URL-like name (colon in front of the slashes) is kept *)
+Example C12_finding_include_double_slash :
+  let s nm := mkSD [ex12i_ph w_INCLUDE 3; (KS (of_string "a"), Leaf (SInt 1))] [] [] [(3, ex12i_inc nm)] [] in
+  inc_name_ok (of_string "a//b.dict") = false /\ name_ok (of_string "a//b.dict") = true /\
+  ex12i_names (parse_string true [] 41 (to_string_sd (s (of_string "a//b.dict")))) = [of_string "aLINECOMMENT000042"] /\
+  inc_name_ok (of_string "http://h/b.dict") = true /\
+  ex12i_names (parse_string true [] 41 (to_string_sd (s (of_string "http://h/b.dict")))) = [of_string "http://h/b.dict"].
+Proof. vm_compute. repeat split; reflexivity. Qed.
+
+(* 3. name_cond (incfree): a name that spells the placeholder pair of an include inserted later is changed by the writer *)
+Example C12_finding_include_placeholder_in_name :
+  let s := mkSD [ex12i_ph w_INCLUDE 7; ex12i_ph w_INCLUDE 3; (KS (of_string "a"), Leaf (SInt 1))] [] []
+                [(7, ex12i_inc (of_string "x INCLUDE000003 INCLUDE000003; y")); (3, ex12i_inc (of_string "b.dict"))] [] in
+  rereadable_inc s = false /\
+  to_string_sd s = native_header ++ of_string "#include 'x #include b.dict y'
+#include b.dict
+a                             1;
+".
+Proof. vm_compute. split; reflexivity. Qed.
+
+(* 4. name_cond (phfree): a name that spells the placeholder pair of a line comment is changed by the writer, whose line
+      comment pass comes after the include pass *)
+Example C12_finding_comment_placeholder_in_name :
+  let s := mkSD [ex12i_ph w_INCLUDE 3; ex12i_ph w_LINECOMMENT 1; (KS (of_string "a"), Leaf (SInt 1))] [(1, of_string "// one")] []
+                [(3, ex12i_inc (of_string "LINECOMMENT000001 LINECOMMENT000001;"))] [] in
+  rereadable_inc s = false /\
+  to_string_sd s = native_header ++ of_string "#include '// one'
+// one
+a                             1;
+".
+Proof. vm_compute. split; reflexivity. Qed.
+
+(* 5. distinct names: of two directives that name the same file the reader keeps one (SDict._clean drops an include entry
+      equal to an earlier one) *)
+Example C12_finding_equal_includes :
+  let s := mkSD [ex12i_ph w_INCLUDE 7; ex12i_ph w_INCLUDE 3; (KS (of_string "a"), Leaf (SInt 1))] [] []
+                [(7, ex12i_inc (of_string "b.dict")); (3, ex12i_inc (of_string "b.dict"))] [] in
+  rereadable_inc s = false /\
+  ex12i_names (parse_string true [] 41 (to_string_sd s)) = [of_string "b.dict"] /\
+  ex12i_keys (parse_string true [] 41 (to_string_sd s)) = [of_string "BLOCKCOMMENT000000"; of_string "INCLUDE000042"; of_string "a"].
+Proof. vm_compute. repeat split; reflexivity. Qed.
+
+(* 6. incfree block comments: the include pass of the writer comes after the block comment pass, so a block comment that
+      spells the placeholder pair of an include entry is changed *)
+Example C12_finding_include_placeholder_in_block_comment :
+  let s := mkSD [ex12i_ph w_BLOCKCOMMENT 0; ex12i_ph w_INCLUDE 3; (KS (of_string "a"), Leaf (SInt 1))] []
+                [(0, of_string "/* C++ INCLUDE000003 INCLUDE000003; */")] [(3, ex12i_inc (of_string "b.dict"))] [] in
+  rereadable_inc s = false /\
+  to_string_sd s = of_string "/* C++ #include b.dict */
+#include b.dict
+a                             1;
+".
+Proof. vm_compute. split; reflexivity. Qed.
+
+(* ================================================================================================ *)
+(* Stage 2: documents                                                                                *)
+(* ================================================================================================ *)
+
+(* The lexer on a written text with directive lines ANYWHERE (any indentation, also inside nested dicts), given as its list
+   of statements es (RereadTree.ev; a directive is ECm lvl INCLUDECOMMENT (inc_directive name)).  The real order of the
+   stages: the counter serves the line comments first (in text order), then the directives (in text order), then the quoted
+   literals; the include table gets (indented directive, name, path relative to dir) for every directive in text order;
+   the token list is that of the text in which every comment and every directive is ONE placeholder token. *)
+Theorem C12_lex_includes_text : forall cm dir count es, Forall ev_srcI es -> first_nc es -> NoDup (bcx es) ->
+  NoDup (ids count (length (lcx es))) -> NoDup (ids (cafter count (length (lcx es))) (length (icx es))) ->
+  let nl := length (lcx es) in let c1 := cafter count nl in let ni := length (icx es) in let c2 := cafter c1 ni in
+  let nq := length (lits es) in
+  let btab := number_from 0 (bcx es) in
+  let E2 := map (numB cm btab) (relabI (ids c1 ni) (relab cm (ids count nl) es)) in
+  exists tl, (tl = [] \/ tl = [[]]) /\
+  lex cm dir count (catR es) =
+  mkLexed (evs_tokL (ids c2 nq) E2 ++ tl) (cafter c2 nq) (combine (ids count nl) (lcx es)) btab
+          (combine (ids c1 ni) (map (inc_entry dir) (icx es))) []
+          (tupdate [] (combine (ids c2 nq) (lits es))).
+Proof. exact lex_events_inc. Qed.
+Print Assumptions C12_lex_includes_text.
+
+(* non-vacuity: a directive at top level, a line comment, a nested dict with a directive of its own (indented), a quoted
+   literal; the ids: line comment 42, directives 43 and 44, literal 45 *)
+Example C12_lex_includes_text_nonvacuous :
+  let es := [ECm 0 w_INCTAG (inc_directive (of_string "top.dict")); ECm 0 w_LINECOMMENT (of_string "// nine");
+             ELeaf 0 (KS (of_string "a")) (SInt 1); EOpen 0 (KS (of_string "sub"));
+             ECm 1 w_INCTAG (inc_directive (of_string "sub/n.dict")); ELeaf 1 (KS (of_string "c")) (SStr (of_string "x y")); EClose 0] in
+  catR es = of_string "#include top.dict
+// nine
+a                             1;
+sub
+{
+    #include 'sub/n.dict'
+    c                         'x y';
+}
+" /\
+  Forall ev_srcI es /\ first_nc es /\ NoDup (bcx es) /\
+  lxd_inc (lex true (of_string "/e") 41 (catR es)) =
+    [(43, (of_string "#include top.dict", of_string "top.dict", of_string "/e/top.dict"));
+     (44, (of_string "    #include 'sub/n.dict'", of_string "sub/n.dict", of_string "/e/sub/n.dict"))] /\
+  lxd_lc (lex true (of_string "/e") 41 (catR es)) = [(42, of_string "// nine")] /\
+  lxd_lit (lex true (of_string "/e") 41 (catR es)) = [(45, of_string "x y")] /\
+  lxd_tokens (lex true (of_string "/e") 41 (catR es)) =
+    [of_string "INCLUDE000043"; of_string "LINECOMMENT000042"; of_string "a"; of_string "1"; of_string ";"; of_string "sub"; of_string "{";
+     of_string "INCLUDE000044"; of_string "c"; of_string "STRINGLITERAL000045"; of_string ";"; of_string "}"; []].
+Proof.
+  intros es. split; [vm_compute; reflexivity|].
+  assert (Hd : forall nm, inc_name_ok nm = true -> is_inc_dir (inc_directive nm)) by (intros nm H; exists nm; split; [reflexivity|exact H]).
+  assert (H1 : Forall ev_srcI es).
+  { apply Forall_cons; [right; right; split; [reflexivity|apply Hd; vm_compute; reflexivity]|].
+    apply Forall_cons; [left; split; [reflexivity|vm_compute; reflexivity]|].
+    apply Forall_cons; [split; vm_compute; reflexivity|].
+    apply Forall_cons; [vm_compute; reflexivity|].
+    apply Forall_cons; [right; right; split; [reflexivity|apply Hd; vm_compute; reflexivity]|].
+    apply Forall_cons; [split; vm_compute; reflexivity|].
+    apply Forall_cons; [exact I|constructor]. }
+  assert (H2 : first_nc es) by exact I.
+  assert (H3 : NoDup (bcx es)) by constructor.
+  split; [exact H1|]. split; [exact H2|]. split; [exact H3|].
+  assert (H4 : NoDup (ids 41 (length (lcx es)))) by (vm_compute; apply NoDup_cons; [intros []|constructor]).
+  assert (H5 : NoDup (ids (cafter 41 (length (lcx es))) (length (icx es)))).
+  { vm_compute. apply NoDup_cons; [intros [H|[]]; discriminate H|apply NoDup_cons; [intros []|constructor]]. }
+  destruct (C12_lex_includes_text true (of_string "/e") 41%Z es H1 H2 H3 H4 H5) as (tl & Htl & E).
+  clear E. split; [vm_compute; reflexivity|]. split; [vm_compute; reflexivity|]. split; vm_compute; reflexivity.
+Qed.
+
+(* The class (RereadIncWrite.rereadable_inc): without its include entries the SDict is re-readable (the class of
+   C12_comments_survive_partial: line and block comments at any dict level); the include entries sit at TOP LEVEL, are
+   placeholder entries (key and value spell the same include placeholder) whose ids are in the include table, with pairwise
+   distinct keys; table ids pairwise distinct and below one million; the names of the entries satisfy name_cond and are
+   pairwise distinct; no block comment text contains an include placeholder; no expressions. *)
+
+(* The written text: the canonical document of the SDict without its include entries -- the top-level block comments first
+   (the header in front), every comment on a line of its own -- with one directive line  #include <name>  per include
+   entry, in data order, behind the top-level block comments (sort_top moves them there).  Side condition: fewer than a
+   million entries in the line comment table (the proof needs one unused line comment id). *)
+Theorem C12_includes_written_text : forall s, rereadable_inc s = true -> (Z.of_nat (length (sd_lc s)) < 1000000)%Z ->
+  to_string_sd s = remove_trailing_spaces (cat cm_line (inc_events (written_doc (strip_inc s)) (inc_names s))).
+Proof. exact writer_canon_inc_all. Qed.
+Print Assumptions C12_includes_written_text.
+
+(* The reader on such a text, for ANY canonical comment document c (cdoc_ok, top-level block comments first) and any list of
+   names: the numbered comment document (RereadProofs.number) with one include placeholder entry per directive spliced in
+   behind the top-level block comments, the include ids following those of the line comments, the include table
+   (directive, name, path_join dir name) in text order. *)
+Theorem C12_read_includes_text : forall c names dir count, cdoc_ok c = true -> csort c = c ->
+  forallb inc_name_ok names = true -> NoDup names -> (-1 <= count)%Z ->
+  (Z.of_nat (length (lc_list c)) <= 1000000)%Z -> (Z.of_nat (length (bc_list c)) <= 1000000)%Z ->
+  (Z.of_nat (length (lit_list c)) <= 1000000)%Z -> (Z.of_nat (length names) <= 1000000)%Z ->
+  parse_string true dir count (remove_trailing_spaces (cat cm_line (inc_events c names))) =
+  Ok (mkParsed (number_inc dir count c names) (count_after_inc count c names)).
+Proof. exact reader_text_inc. Qed.
+Print Assumptions C12_read_includes_text.
+
+(* WANTED: for every SDict the reader returns for a native source with comments and include directives.
+   PROVED for the class rereadable_inc.  What the class leaves out, besides what C12_comments_survive_partial leaves out:
+   include entries inside nested dicts (the library and the model handle them, see the lexer theorem above and
+   C12_finding_nested_include; the token parser theorem RereadIncParse.TRI covers them, the writer proof and the splice of
+   the reader proof do not); SDicts with a million line comment table entries.
+   Reading the written text back gives an SDict s' with: (a) without its include entries, s' is the re-read comment document
+   of C12_comments_survive_partial (same ordinary data, every comment with its exact text at its place, header first);
+   (b) one include entry per directive, behind the top-level block comments, in text order, ids = the counter values that
+   follow those of the line comments; (c) the include table: for each id the directive as written, the SAME NAME as the
+   entry it was written for, and the path of that name relative to the folder dir of the file that is read. *)
+Theorem C12_includes_survive_partial : forall s dir count, rereadable_inc s = true -> (Z.of_nat (length (sd_lc s)) < 1000000)%Z -> (-1 <= count)%Z ->
+  (Z.of_nat (length (lc_list (written_doc_inc s))) <= 1000000)%Z -> (Z.of_nat (length (bc_list (written_doc_inc s))) <= 1000000)%Z ->
+  (Z.of_nat (length (lit_list (written_doc_inc s))) <= 1000000)%Z -> (Z.of_nat (length (inc_names s)) <= 1000000)%Z ->
+  let c := written_doc_inc s in let names := inc_names s in
+  let ks := ids (cafter count (length (lc_list c))) (length names) in
+  exists s' count',
+    parse_string true dir count (to_string_sd s) = Ok (mkParsed s' count') /\
+    strip_inc s' = number count c /\
+    canon (strip_inc s') = cwv c /\
+    cstrip (Dict (sd_data (strip_inc s'))) = map_leaves written_value (cstrip (Dict (sd_data (strip_inc s)))) /\
+    filter is_inc_entry (sd_data s') = map inc_ph_entry ks /\
+    sd_data s' = firstn (length (bpart c)) (sd_data (strip_inc s')) ++ map inc_ph_entry ks ++ skipn (length (bpart c)) (sd_data (strip_inc s')) /\
+    sd_inc s' = combine ks (map (fun nm => (inc_directive nm, nm, path_join dir nm)) names) /\
+    map (fun e => snd (fst (snd e))) (sd_inc s') = names /\
+    sd_lc s' = sd_lc (number count c) /\ sd_bc s' = sd_bc (number count c) /\ sd_expr s' = [].
+Proof. exact includes_survive. Qed.
+Print Assumptions C12_includes_survive_partial.
+
+(* the example SDict: two include entries (one names a file in a sub-directory) between ordinary entries, in another order
+   than their ids, a marked header of its own further down, a line comment, a nested dict with a block comment, a quoted
+   string; the entries were read from folder /d *)
+Definition ex12i_sd : sdict :=
+  mkSD [ ex12i_ph w_LINECOMMENT 9; (KS (of_string "a"), Leaf (SInt 1)); ex12i_ph w_INCLUDE 7;
+         (KS (of_string "b"), Leaf (SStr (of_string "x y"))); ex12i_ph w_INCLUDE 3; ex12i_ph w_BLOCKCOMMENT 2;
+         (KS (of_string "sub"), Dict [ex12i_ph w_BLOCKCOMMENT 5; (KS (of_string "c"), Leaf (SInt 2))]) ]
+       [(9, of_string "// nine")] [(2, of_string "/* my C++ header */"); (5, of_string "/* five */")]
+       [(3, (of_string "#include 'sub/inc.dict'", of_string "sub/inc.dict", of_string "/d/sub/inc.dict"));
+        (7, (of_string "#include 'top.dict'", of_string "top.dict", of_string "/d/top.dict"))] [].
+
+Example C12_includes_written_text_nonvacuous :
+  rereadable_inc ex12i_sd = true /\ (Z.of_nat (length (sd_lc ex12i_sd)) < 1000000)%Z /\
+  inc_names ex12i_sd = [of_string "top.dict"; of_string "sub/inc.dict"] /\
+  to_string_sd ex12i_sd = of_string
+"/* my C++ header */
+#include top.dict
+#include 'sub/inc.dict'
+// nine
+a                             1;
+b                             'x y';
+sub
+{
+    /* five */
+    c                         2;
+}
+" /\
+  to_string_sd ex12i_sd = remove_trailing_spaces (cat cm_line (inc_events (written_doc (strip_inc ex12i_sd)) (inc_names ex12i_sd))).
+Proof.
+  assert (H0 : rereadable_inc ex12i_sd = true) by (vm_compute; reflexivity).
+  assert (H1 : (Z.of_nat (length (sd_lc ex12i_sd)) < 1000000)%Z) by (vm_compute; reflexivity).
+  refine (conj H0 (conj H1 (conj _ (conj _ (C12_includes_written_text ex12i_sd H0 H1))))); vm_compute; reflexivity.
+Qed.
+
+Example C12_includes_survive_partial_nonvacuous :
+  let c := written_doc_inc ex12i_sd in
+  rereadable_inc ex12i_sd = true /\
+  (exists s' count',
+     parse_string true (of_string "/e") 41 (to_string_sd ex12i_sd) = Ok (mkParsed s' count') /\
+     strip_inc s' = number 41 c /\ canon (strip_inc s') = cwv c /\
+     filter is_inc_entry (sd_data s') = map inc_ph_entry [43; 44] /\
+     (* the names are the same, in text order; the paths are those of the names relative to the folder read from *)
+     sd_inc s' = [(43, (of_string "#include top.dict", of_string "top.dict", of_string "/e/top.dict"));
+                  (44, (of_string "#include 'sub/inc.dict'", of_string "sub/inc.dict", of_string "/e/sub/inc.dict"))] /\
+     map (fun e => snd (fst (snd e))) (sd_inc s') = inc_names ex12i_sd /\
+     map fst (sd_data s') =
+       [KS (of_string "BLOCKCOMMENT000000"); KS (of_string "INCLUDE000043"); KS (of_string "INCLUDE000044"); KS (of_string "LINECOMMENT000042");
+        KS (of_string "a"); KS (of_string "b"); KS (of_string "sub")] /\
+     sd_lc s' = [(42, of_string "// nine")] /\ map fst (sd_bc s') = [0; 1]) /\
+  (* read from the folder the entries came from, the paths are the same as before: the same files *)
+  (match parse_string true (of_string "/d") 41 (to_string_sd ex12i_sd) with
+   | Ok p => map (fun e => snd (snd e)) (sd_inc (pr_sd p)) = [of_string "/d/top.dict"; of_string "/d/sub/inc.dict"]
+   | Raise _ => False end).
+Proof.
+  intros c.
+  assert (H0 : rereadable_inc ex12i_sd = true) by (vm_compute; reflexivity).
+  assert (H1 : (Z.of_nat (length (sd_lc ex12i_sd)) < 1000000)%Z) by (vm_compute; reflexivity).
+  assert (H2 : (Z.of_nat (length (lc_list (written_doc_inc ex12i_sd))) <= 1000000)%Z) by (vm_compute; discriminate).
+  assert (H3 : (Z.of_nat (length (bc_list (written_doc_inc ex12i_sd))) <= 1000000)%Z) by (vm_compute; discriminate).
+  assert (H4 : (Z.of_nat (length (lit_list (written_doc_inc ex12i_sd))) <= 1000000)%Z) by (vm_compute; discriminate).
+  assert (H5 : (Z.of_nat (length (inc_names ex12i_sd)) <= 1000000)%Z) by (vm_compute; discriminate).
+  split; [exact H0|]. split; [|vm_compute; reflexivity].
+  destruct (C12_includes_survive_partial ex12i_sd (of_string "/e") 41%Z H0 H1 ltac:(lia) H2 H3 H4 H5) as (s' & count' & P & A & B & _ & D & E & F & G & L & Bc & _).
+  exists s', count'. split; [exact P|]. split; [exact A|]. split; [exact B|].
+  assert (Eks : ids (cafter 41 (length (lc_list (written_doc_inc ex12i_sd)))) (length (inc_names ex12i_sd)) = [43; 44]) by (vm_compute; reflexivity).
+  rewrite Eks in D, F, E. split; [exact D|]. split; [rewrite F; vm_compute; reflexivity|]. split; [exact G|].
+  split; [rewrite E, A; vm_compute; reflexivity|]. rewrite L, Bc. vm_compute. split; reflexivity.
+Qed.
+
+(* the reader theorem on a canonical document that is not the written form of an SDict at hand: a header, a top-level line
+   comment, a nested line comment, three directives *)
+Example C12_read_includes_text_nonvacuous :
+  let c := [(KS w_BLOCKCOMMENT, Leaf (SStr nh_txt)); (KS w_LINECOMMENT, Leaf (SStr (of_string "// first")));
+            (KS (of_string "k"), Dict [(KS w_LINECOMMENT, Leaf (SStr (of_string "// inner"))); (KS (of_string "v"), Leaf (SStr (of_string "two words")))])] in
+  let names := [of_string "a.dict"; of_string "b c.dict"; of_string "http://host/x.dict"] in
+  cdoc_ok c = true /\ csort c = c /\ forallb inc_name_ok names = true /\ NoDup names /\
+  parse_string true (of_string "/e") 7 (remove_trailing_spaces (cat cm_line (inc_events c names))) =
+    Ok (mkParsed (number_inc (of_string "/e") 7 c names) (count_after_inc 7 c names)) /\
+  remove_trailing_spaces (cat cm_line (inc_events c names)) = native_header ++ of_string
+"#include a.dict
+#include 'b c.dict'
+#include 'http://host/x.dict'
+// first
+k
+{
+    // inner
+    v                         'two words';
+}
+" /\
+  map fst (sd_inc (number_inc (of_string "/e") 7 c names)) = [10; 11; 12] /\ count_after_inc 7 c names = 13%Z.
+Proof.
+  intros c names.
+  assert (H0 : cdoc_ok c = true) by (vm_compute; reflexivity).
+  assert (H1 : csort c = c) by (vm_compute; reflexivity).
+  assert (H2 : forallb inc_name_ok names = true) by (vm_compute; reflexivity).
+  assert (H3 : NoDup names) by (apply nodupb_NoDup; vm_compute; reflexivity).
+  refine (conj H0 (conj H1 (conj H2 (conj H3 (conj _ _))))).
+  - apply (C12_read_includes_text c names (of_string "/e") 7%Z H0 H1 H2 H3); [lia|vm_compute; discriminate..].
+  - vm_compute. repeat split; reflexivity.
+Qed.
+
+(* 7. outside the class, not a defect: an include entry inside a nested dict is written at its place (indented) and read
+      back with the same name; the directive text in the table carries the indentation *)
+Example C12_finding_nested_include :
+  let s := mkSD [(KS (of_string "sub"), Dict [ex12i_ph w_INCLUDE 3; (KS (of_string "c"), Leaf (SInt 2))])] [] [] [(3, ex12i_inc (of_string "n.dict"))] [] in
+  rereadable_inc s = false /\
+  to_string_sd s = native_header ++ of_string "sub
+{
+    #include n.dict
+    c                         2;
+}
+" /\
+  match parse_string true (of_string "/e") 41 (to_string_sd s) with
+  | Ok p => sd_inc (pr_sd p) = [(42, (of_string "    #include n.dict", of_string "n.dict", of_string "/e/n.dict"))] /\
+            sd_data (pr_sd p) = [ex12i_ph w_BLOCKCOMMENT 0; (KS (of_string "sub"), Dict [ex12i_ph w_INCLUDE 42; (KS (of_string "c"), Leaf (SInt 2))])]
+  | Raise _ => False
+  end.
+Proof. vm_compute. repeat split; reflexivity. Qed.
